@@ -55,12 +55,35 @@ CLAIM = dict(
           "objects; no simulated machine - per-chip configuration = resource exceptions, which differ between chips "
           "and between the two machines of one history.  Module-level state is reset (greedy.py and utils.py "
           "re-executed in place) before every item, so a replay reproduces; state that a change might put into "
-          "machine.py / constraints.py classes is not reset - a history still carries all its calls."),
+          "machine.py / constraints.py classes is not reset - a history still carries all its calls.  "
+          "Translator tie (harness/gen/pyfun.py, regenerated from greedy.py on every run): the WHOLE body of "
+          "`allocate` is translated into Gen/PyFun.lean (dicts / dicts of dicts / defaultdicts as association "
+          "lists in insertion order, the constraint list as typed records told apart by isinstance, `machine[xy]` "
+          "as an environment function, `proposed_allocation` as an optional slice, the `while` loop with fuel; "
+          "every loop body a definition of its own) and cross-checked against Python by tools/pyfun_difftest.py.  "
+          "Props/C05Gen.lean proves about the generated text, for all inputs: the two reservation scans = the "
+          "model's `scan` (gen_scan), one pass of the proposal loop (loop6_step), the whole `while` loop = the "
+          "model's `proposeLoop` for every fuel incl. which runs are cut off (gen_propose), and the generated body "
+          "of `for resource, requirement in ...` = the model's `allocOne` with that fuel, incl. every error and "
+          "the order in which KeyError / IndexError / InsufficientResourceError arise and the pointer update "
+          "(gen_allocOne; hypotheses: alignments != 0 - the translator does not model ZeroDivisionError - and the "
+          "reservation / alignment dicts hold what the model reads off the constraint list, `Tables`); the "
+          "generated constraint collection loop builds exactly such dicts (loop1_step, gen_collect, gen_tables: "
+          "globally_reserved / locally_reserved / alignments answer globalRes / localRes / alignment for every "
+          "resource and chip, incl. the isinstance dispatch, `location is None`, list order and last-align-wins).  So the "
+          "over-allocation test, the alignment of every proposal, the reservation bump, the per-chip lookup key "
+          "and the re-alignment after a bump are tied to greedy.py by proof.  Still under differential "
+          "correspondence only: the three outer loops (resources of a vertex, vertices of a chip, chips) and the "
+          "grouping of placements by chip (their generated definitions exist and are difftested; the equalities "
+          "to allocResources / allocVertices / allocChips / chipOrder, i.e. gen_allocate = allocate as one "
+          "statement, are not proved yet) and Machine.__getitem__."),
     technique="Lean 4 theorems over a hand-written model + differential correspondence + Lean spec as oracle")
 
 THEOREMS = ["overlaps_iff_common", "alloc_sound", "alloc_sound_range", "alloc_unique", "alloc_only_failure",
             "alloc_complete", "alloc_complete_window", "alloc_complete_placer_budget"]
 THEOREMS += ['gen_slices_overlap', 'gen_align']   # translator tie: generated function bodies = model (Props/C05Gen.lean)
+THEOREMS += ['loop7_step', 'loop8_step', 'gen_scan', 'loop6_step', 'gen_propose', 'gen_allocOne',   # generated body of greedy.allocate (inner loops) = model
+             'loop1_step', 'gen_collect', 'gen_tables']   # generated constraint collection loop = globalRes / localRes / alignment
 
 RULE = ("machines 1-3 x 1-3 with 1-3 resources, per-chip exceptions and dead chips; 1-6 used chips, 0-12 vertices "
         "per chip placed in shuffled (interleaved) order, demands incl. 0 and absent resources; up to 6 global and "
